@@ -459,8 +459,16 @@ def _case_opt(p, ctx, cp, algo, cap, h, settings, use_db, n_iter, coefficient_so
         return
     counter = int(h.problem.evaluation_counter.current)
     if not cap["composite"]:
-        ctx.check(counter == growth, "counter", f"first execution: the evaluation counter holds {counter} after {growth} new database entries",
-                  algo=algo, max_iter=n_iter)
+        if h.state["raised"]:
+            # a user function raised inside the new-iteration event (e.g. an observable; NLopt swallows the exception and the
+            # driver still returns a result): the listeners after it were not run for that entry, so the counter may lag
+            # behind; the statement bounds the entries and the points, not the counter (thorough tier, seed 5)
+            ctx.cls("counter_may_lag_after_a_user_exception_in_the_new_iteration_event")
+            ctx.check(counter <= growth, "counter", f"first execution: the evaluation counter holds {counter} after {growth} new database entries",
+                      algo=algo, max_iter=n_iter)
+        else:
+            ctx.check(counter == growth, "counter", f"first execution: the evaluation counter holds {counter} after {growth} new database entries",
+                      algo=algo, max_iter=n_iter)
     _check_result(h, result, p, settings, ctx, "first execution", coefficient_solver)
     message = str(result.message)
     if growth >= 1 and p["stop"] != "time" and not h.state["nan_returned"]:
